@@ -20,3 +20,49 @@ func init() {
 		DesignRef:   "DESIGN.md §6 C01",
 	})
 }
+
+func init() {
+	chainAssume := append([]string{
+		"histories: build, append^N (N = 1 quick / 2 thorough), and for every prefix: seal, serialize+unmarshal, seal+reload, reload+append; identifier absent or any 32-bit value",
+	}, stdAssumptions...)
+	checks = append(checks, &CheckSpec{
+		Prop:    "C16",
+		Harness: []string{"c01_chain.go", "c16_keyid.go"},
+		Entries: []EntrySpec{
+			{Pkg: "biscuit", Func: "VerifC16Travels", Quick: p("blocks", 1), Thorough: p("blocks", 2), Covers: []string{"done"}},
+			{Pkg: "biscuit", Func: "VerifC16Lookup", Quick: p(), Thorough: p(), Covers: []string{"looked-up", "no-key", "key-found"}},
+		},
+		Assumptions: append([]string{"key maps of 0..2 entries under symbolic 32-bit identifiers, each the right or a wrong key, optional default"}, chainAssume...),
+		Models:      []string{modelSig, modelCodec},
+		Explanation: "derivation histories are executed through the real API with a symbolic identifier; lookup is executed with a symbolic key map and compared with the documented selection rule",
+		LevelText:   "Bounded symbolic model checking: the root key identifier (absent or any uint32) is reported unchanged by every token derived by append, seal, serialization and reload; WithRootPublicKeys verifies against exactly map[id] (or the default when the token has no id), reports ErrNoPublicKeyAvailable when there is none, and never falls back to another entry.",
+		LevelNote:   "Ideal signature model and ideal codec; histories bounded as listed.",
+		DesignRef:   "DESIGN.md §6 C16",
+	})
+	checks = append(checks, &CheckSpec{
+		Prop:    "C17",
+		Harness: []string{"c01_chain.go", "c16_keyid.go"},
+		Entries: []EntrySpec{
+			{Pkg: "biscuit", Func: "VerifC17Revocation", Quick: p("blocks", 1), Thorough: p("blocks", 2), Covers: []string{"done"}},
+		},
+		Assumptions: append([]string{"fresh randomness is modelled by assuming all drawn seeds pairwise distinct; distinctness of identifiers then follows from injectivity of PUB and SIG in the ideal model"}, chainAssume...),
+		Models:      []string{modelSig, modelCodec},
+		Explanation: "revocation identifiers of every token of a derivation history are compared with the signatures found by an independent proto decoding and with each other",
+		LevelText:   "Bounded symbolic model checking: exactly one identifier per block; identifiers of derived tokens (append, seal, reload) start with the parent's, byte for byte; identifier i equals the signature field of signed block i of the decoded envelope; identifiers of all blocks of the history, a sibling with identical content and a twin token with identical content are pairwise distinct for all seed values.",
+		LevelNote:   "Ideal signature model (deterministic, injective); 'independent decoder' is the ideal codec applied to pb.Biscuit, not a separate byte-level reader.",
+		DesignRef:   "DESIGN.md §6 C17",
+	})
+	checks = append(checks, &CheckSpec{
+		Prop:    "C09",
+		Harness: []string{"c01_chain.go", "c16_keyid.go"},
+		Entries: []EntrySpec{
+			{Pkg: "biscuit", Func: "VerifC09Sealed", Quick: p("blocks", 1), Thorough: p("blocks", 2), Covers: []string{"frozen", "tamper-rejected"}},
+		},
+		Assumptions: chainAssume,
+		Models:      []string{modelSig, modelCodec},
+		Explanation: "Seal and the sealed branch of signature verification executed symbolically, before and after a serialization round trip",
+		LevelText:   "Bounded symbolic model checking: a sealed token (of every prefix, fresh or reloaded) verifies under the root, keeps revocation ids and block count, refuses Append and Seal with an error and no token; replacing the seal signature, the last announced key, the last block or its signature by any other value is rejected (all replacement values symbolic).",
+		LevelNote:   "Equivalence of authorization outcomes between a token and its sealed form is checked in the authz harness family when built; ideal signature and codec models.",
+		DesignRef:   "DESIGN.md §6 C09",
+	})
+}
